@@ -1,8 +1,8 @@
 CONSTANTS
   MaxLines = 2
-  Emit = FALSE
+  Emit = TRUE
   FullLexer = FALSE
   Start = 0
 SPECIFICATION Spec
-INVARIANTS NoError SameTokens
+INVARIANTS NoError SameTokens EmitOK
 CHECK_DEADLOCK FALSE
